@@ -91,7 +91,10 @@ func vrtMakeEntry(kind int, hash *factom.Bytes32, blockTime int64, height uint32
 	var e factom.Entry
 	e.ChainID = &chain
 	e.Hash = hash
-	e.Timestamp = time.Unix(blockTime, 0)
+	// an entry's own timestamp is the block's start plus the minute it was written in (factomd);
+	// the salt window is measured from the ENTRY's time
+	entryTime := blockTime + vrt.Range("entryMinute", 0, 600)
+	e.Timestamp = time.Unix(entryTime, 0)
 	sp := vrtEntrySpec{kind: kind, hash: hash, amount: amt, valid: true, fromKey: 0}
 	rcde := kind == ekRCDE
 	A := vrt.KeyAddress(0, rcde)
@@ -104,7 +107,7 @@ func vrtMakeEntry(kind int, hash *factom.Bytes32, blockTime int64, height uint32
 		batch = vrtTransferBatch(A, B, amt)
 	}
 	salt := blockTime + vrt.Range("saltOffset", -50000, 50000)
-	inWindow := salt >= blockTime-43200 && salt <= blockTime+43200
+	inWindow := salt >= entryTime-43200 && salt <= entryTime+43200
 	switch kind {
 	case ekGarbage:
 		e.Content = vrt.Blob(nil)
